@@ -122,6 +122,15 @@ def natural_matrix(ctx):
              then_set=dict(dt_max=100.0, solve_time=12.0)),
         dict(first=dict(dev="bar", dt_init=2.0 ** -6, dt_max=2.0 ** -6, window=3, solve_time=0.2, k=50),       # quiet first run
              then_set=dict(dt_max=0.5, solve_time=3.0)),
+        # seeded runs (seed_solution=): the seed supplies the state, not the step control; its last dt differs from dt_init
+        dict(dev="bar", adaptive=False, dt_init=2.0 ** -6, current=3.0, field=0.3, solve_time=0.2, k=50,
+             seed=dict(dt_init=2.0 ** -5, solve_time=0.15)),                                   # fixed step, seed's dt larger
+        dict(dev="bar", adaptive=False, dt_init=2.0 ** -5, current=3.0, field=0.3, solve_time=0.3, k=50,
+             seed=dict(dt_init=2.0 ** -7, solve_time=0.1)),                                    # fixed step, seed's dt smaller
+        dict(dev="bar", dt_init=2.0 ** -6, dt_max=0.5, window=3, current=3.0, field=0.3, solve_time=2.0, k=50,
+             seed=dict(adaptive=False, dt_init=2.0 ** -5, solve_time=0.3)),                    # adaptive, seed's dt larger
+        dict(dev="bar", dt_init=2.0 ** -4, dt_max=0.5, window=2, current=8.0, field=0.5, solve_time=2.0, k=50,
+             seed=dict(dt_init=2.0 ** -8, dt_max=2.0 ** -8, solve_time=0.05)),                 # adaptive, seed's dt smaller
         # adaptive + screening with a proposal that is NOT clipped and dynamics that change from step to step: the
         # window must hold one delta per solve step, however many screening iterations a step took
         dict(dev="bar", screening=True, tol=1e-2, alpha=0.5, beta=0.5, dt_init=2.0 ** -8, dt_max=0.25, window=4,
@@ -156,7 +165,7 @@ def natural_matrix(ctx):
     return out
 
 
-def run(ctx):
+def _run(ctx):
     models, canaries, exports = bounds(ctx)
     ctx.cov["bounds"] = {"models": {m[0]: m[1] for m in models}, "exports": {e[0]: e[1] for e in exports},
                          "fixed_point_bits": {"time": sc.FT, "delta": sc.FD, "vector_potential": sc.FA}}
@@ -189,6 +198,11 @@ def run(ctx):
     if not (sum(s["refusals"] for s in st) > 50 and "euler" in raised and sum(s["rule_steps"] for s in st) > 50
             and any(s["max_retries_in_a_step"] >= 3 for s in st)):
         raise core.MachineryFailure(f"natural runs did not exercise retries / the rule / exhaustion: {st} {raised}")
+    sd = [t for t in ntraces if t["params"].get("seed") is not None]
+    if not all(any(t["params"].get("adaptive", True) == a and t["stats"]["seed_last_dt"] is not None
+                   and (t["stats"]["seed_last_dt"] > t["params"]["dt_init"]) == bigger and t["stats"]["updates"] > 5 for t in sd)
+               for a in (True, False) for bigger in (True, False)):
+        raise core.MachineryFailure(f"seeded runs do not cover adaptive on/off x seed dt above/below dt_init: {[t['stats'] for t in sd]}")
     hist2 = [t for t in ntraces if "second run" in t["params"].get("history", "")]
     if not (hist2 and all(t["stats"]["rule_steps"] >= 5 and t["ev"][-1]["ev"] == "options" for t in hist2)
             and any(t["params"]["dt_init"] == t["params"].get("dt_max") and t["stats"]["refusals"] > 10 for t in ntraces)):
@@ -237,6 +251,16 @@ def describe(ctx):
     ctx.assume("natural runs: relations between logged floats are evaluated by harness/stepctl.py with relative tolerance "
                "1e-12 (1e-9 for the window rule); TLC decides which relation is required at which point of the history")
     ctx.assume("the model's environment offers only deltas for which every window sum is 0 or a power of two (exact dyadic arithmetic)")
+
+
+def run(ctx):
+    """Verdicts first: a machinery problem (vacuity guard, canary) met after violations were recorded never replaces them."""
+    try:
+        _run(ctx)
+    except core.MachineryFailure as e:
+        if not ctx.violations:
+            raise
+        ctx.cov["machinery_problem_after_violations"] = str(e)[:2000]
 
 
 def replay(ctx, path):
